@@ -18,15 +18,17 @@
 import VsgModel.Engine.RuleRun
 import VsgProofs.Lemmas.Engine
 import VsgProofs.Lemmas.Iterate
+import VsgProofs.Lemmas.SortByStart
 namespace Vsgm.C09
 open Vsgm Vsgm.Iter
 
 /-- a rule whose (filtered) analysis is empty leaves the file alone and does not set had_violations -/
 theorem ruleFix_of_no_violation (r : RuleCfg) (sem : RuleSem) (fo : Option FixOnly) (f : List Tok)
     (h : filterFixOnly fo r.id (sem.analyze f) = []) : ruleFix r sem fo f = (f, false) := by
+  have h' := (Lemmas.filterFixOnly_sort_nil fo r.id (sem.analyze f)).mpr h
   unfold ruleFix
   split
-  · simp [h, update]
+  · simp [h', update]
   · rfl
 
 /-- **reduction, engine part** (`_partial`: the hypotheses are about the real analyses and are
